@@ -342,3 +342,13 @@ Check (C15_eng_send_kind :
   snd (xstep g e (XNext now ch)) = XSend q p mk ->
   exists t a b c seeds es s, xget q e = Some (QL t a b c seeds es s) /\ mk = req_of t /\
     snd (next_action c s now) = ASend p).
+Check (C15_eng_send_fresh :
+  forall g evs0 now ch q p mk,
+  let e := fst (xrun g [] evs0) in
+  snd (xstep g e (XNext now ch)) = XSend q p mk ->
+  exists t a b c seeds es s,
+    xget q e = Some (QL t a b c seeds es s) /\ mk = req_of t /\
+    (dist_inj c -> ~ In (c_local c) seeds ->
+     p <> g_local g /\ ~ In p (sends (snd (run c (init c seeds) es)))) /\
+    exists s', xget q (fst (xstep g e (XNext now ch))) = Some (QL t a b c seeds (es ++ [ENext now]) s') /\
+      sends (snd (run c (init c seeds) (es ++ [ENext now]))) = sends (snd (run c (init c seeds) es)) ++ [p]).
